@@ -157,13 +157,14 @@ def base_helper(rng: random.Random) -> dict:
     events = []
     if msgs[k:]:
         events.append({"at": {"t": 0.5}, "do": "dev", "act": {"msgs": msgs[k:], "latency": 0.0}})
+    nameless = rng.random() < 0.2  # the hello of firmware before 2022.2: the protocol selector only, no name
     return {
         "family": "framing",
         "knobs": gen_knobs(rng),
         "expected_name": exp,
-        "hello_name_len": len(name),
+        "hello_name_len": -1 if nameless else len(name),
         "n_data": len(msgs),
-        "device": {"transport": "noise", "psk": psk, "eph_seed": "%x" % rng.getrandbits(32), "noise_name": name, "on_handshake": [{"msgs": msgs[:k]}] if k else []},
+        "device": {"transport": "noise", "psk": psk, "eph_seed": "%x" % rng.getrandbits(32), "noise_name": name, **({"noise_hello_name": False} if nameless else {}), "on_handshake": [{"msgs": msgs[:k]}] if k else []},
         "net": {"cuts": gen_cuts(rng), "d2c_latency": [0.0], "c2d_latency": 0.0},
         "actors": [{"id": "a0", "at": {"t": 0.0}, "steps": [{"do": "fh.attach", "kind": "noise", "psk": psk, "expected_name": exp, "wait_ready": False}]}],
         "events": events,
